@@ -149,12 +149,14 @@ class ConcCtx(BaseCtx):
         d = abs(a - b)
         if not np.isfinite(d):
             return False
-        s = max(abs(a), abs(b)) if scale is None else abs(scale)
-        return bool(d <= max(rtol, RTOL_C) * s + 1e-300)
+        if scale is None:
+            return bool(d <= RTOL_C * max(abs(a), abs(b)) + 1e-300)
+        return bool(d <= rtol * abs(scale) + 1e-300)
 
     def le(self, a, b, scale=None, rtol=1e-9):
-        s = max(abs(a), abs(b)) if scale is None else abs(scale)
-        return bool(a <= b + max(rtol, RTOL_C) * s)
+        if scale is None:
+            return bool(a <= b + RTOL_C * max(abs(a), abs(b)))
+        return bool(a <= b + rtol * abs(scale))
 
 
 # ---------------------------------------------------------------------------------
